@@ -530,7 +530,15 @@ def check_readers(ctx):
     C08.check_reader_count(ctx, "C18.readers")
 
 
+
+def check_requeue(ctx):
+    """see rules.common.check_requeue_whole: every prepared write of a failed batch is requeued"""
+    from rules import common as _c
+    _c.check_requeue_whole(ctx, "C18.requeue")
+
+
 def check(ctx):
+    check_requeue(ctx)
     check_readers(ctx)
     check_final_flush(ctx)
     check_progress(ctx)
